@@ -63,6 +63,21 @@ def run(ctx):
         regs, _ = c02.build_history(ctx, sess, 100 if quick else 250, 150 if quick else 600, battery=(rd == 0))
         pairs = related_pairs(ctx, sess, regs, 400 if quick else 1500)
         if rd == 0:
+            # operands on different variables whose combination leaves neighbouring ranges with the same child (first / middle / last range):
+            # the result must still be a partition, and disjointness must be decided on it
+            for k, ta, tb in (('and', "(python_full_version < '3.8' and os_name == 'x') or python_full_version >= '3.9'", "os_name == 'y'"),
+                              ('and', "(python_full_version >= '3.9' and os_name == 'x') or python_full_version < '3.8'", "os_name == 'y'"),
+                              ('and', "(python_full_version >= '3.8' and python_full_version < '3.9' and os_name == 'x') or python_full_version < '3.7' or python_full_version >= '3.10'", "os_name == 'y'"),
+                              ('and', "(os_name < 'b' and extra == 'x') or os_name >= 'c'", "extra != 'x'"),
+                              ('or', "(python_full_version < '3.8' or os_name == 'x') and python_full_version < '3.9'", "os_name != 'x'"),
+                              ('and', "(implementation_version < '3' and sys_platform == 'a') or (implementation_version >= '3' and implementation_version < '4' and sys_platform == 'a') or implementation_version >= '4'", "sys_platform == 'a'")):
+                ra, rb = sess.parse(ta)[0], sess.parse(tb)[0]
+                if ra is None or rb is None:
+                    continue
+                rc, _ = sess.op(k, ra, rb)
+                if rc is not None:
+                    regs.append(rc)
+                    pairs += [(rc, ra), (rc, rb), (ra, rb)]
             # comparisons of two DIFFERENT environment fields are never disjoint, under whatever spelling (a keyword read as another field's
             # variable would make them so); the witness is written down here, not computed from the diagram
             spell = dict(markers.OFFICIAL_STRING)
